@@ -93,10 +93,11 @@ theorem no_group_insert_under_cancelled (s s' : State) (b upd gid parent : Nat)
   split_ifs at h with h1
   simpa using h1
 
-/-- no new update can be opened on a cancelled batch -/
+/-- no new update can be opened on a cancelled batch (`hnew`: the request is not the re-send of an update the owner
+opened before) -/
 theorem no_update_on_cancelled_batch (s : State) (b token nJobs nGroups user : Nat)
     (hc : s.cancelled.contains (b, 0) = true)
-    (hnew : s.updates.find? (fun u => u.batch = b ∧ u.token = token) = none) :
+    (hnew : s.updates.find? (fun u => u.batch = b ∧ u.token = token ∧ ownedBy s b user) = none) :
     ∃ e, createUpdate s b token nJobs nGroups user = (s, .err e) := by
   unfold createUpdate
   rw [hnew]
